@@ -5,7 +5,7 @@ namespace Grip.Drv.C07
 open Lean Grip Grip.C07 Grip.Proto
 
 def famOf : String → Option Fam
-  | "ring" => some .ring | "star" => some .star | "iso" => some .iso | _ => none
+  | "ring" => some .ring | "star" => some .star | "iso" => some .iso | "huge" => some .huge | _ => none
 
 def stepOf (s : String) : Option StepK :=
   match s.splitOn ":" with
@@ -34,7 +34,7 @@ def obsOf (cancel : Int) : Outcome → Json
   | .err => Json.mkObj [("err", Json.bool true)]
   | .skip => Json.mkObj [("skip", Json.bool true)]
 
-def hasHist0 (steps : List StepK) : Bool := steps.any (fun s => s == .agghist 0)
+def hasHist (steps : List StepK) : Bool := steps.any (fun s => match s with | .agghist _ => true | _ => false)
 
 def step (_ : Unit) (j : Json) : Unit × Json :=
   match str? j "op" with
@@ -43,7 +43,7 @@ def step (_ : Unit) (j : Json) : Unit × Json :=
     ((), Json.mkObj [("run", natJ GripGen.BuffersC07.runBufsize), ("res", natJ GripGen.BuffersC07.runResultChan),
       ("bothIn", natJ GripGen.BuffersC07.bothChanIn), ("bothOut", natJ GripGen.BuffersC07.bothChanOut),
       ("agg", natJ GripGen.BuffersC07.aggBuffer), ("absorb", Json.mkObj ab),
-      ("bothConcurrent", Json.bool Gen.bothConcurrent), ("histGuard", Json.bool GripGen.BuffersC07.histogramIntervalGuard)])
+      ("bothConcurrent", Json.bool Gen.bothConcurrent), ("histGuard", Json.bool GripGen.BuffersC07.histogramAdvanceGuard)])
   | some "slack" =>
     match (strs? j "steps").bind (fun ss => ss.mapM stepOf) with
     | some steps =>
@@ -54,7 +54,7 @@ def step (_ : Unit) (j : Json) : Unit × Json :=
   | some "run" =>
     match (str? j "fam").bind famOf, nat? j "n", (strs? j "steps").bind (fun ss => ss.mapM stepOf), int? j "cancel", int? j "slack" with
     | some fam, some n, some steps, some cancel, some slack =>
-      let model := runModel Gen.bothConcurrent GripGen.BuffersC07.histogramIntervalGuard fam n steps
+      let model := runModel Gen.bothConcurrent GripGen.BuffersC07.histogramAdvanceGuard fam n steps
       let spec := runModel true true fam n steps
       if cancel ≥ 0 && slack ≥ 0 && pathSlack steps != some slack.toNat then
         ((), Drv.bad "run: slack differs from the model's in-flight capacity")
@@ -63,7 +63,7 @@ def step (_ : Unit) (j : Json) : Unit × Json :=
         ((), Json.mkObj [("skip", Json.bool true)])
       else if model == spec then ((), obsOf cancel model)
       else
-        let kf := if hasHist0 steps then "C07-hist-interval0" else "C07-both-deadlock"
+        let kf := if hasHist steps then "C07-hist-float-stall" else "C07-both-deadlock"
         ((), (obsOf cancel model).mergeObj (Json.mkObj [("spec", obsOf cancel spec), ("kf", Json.str kf)]))
     | _, _, _, _, _ => ((), Drv.bad "run: cannot decode")
   | _ => ((), Drv.bad "unknown op")
